@@ -55,6 +55,7 @@ pub fn class_name(c: &ErrClass) -> String {
     }
 }
 
+#[derive(Debug)]
 pub enum Simple {
     Prints(Vec<String>),
     Inconclusive(String),
